@@ -32,6 +32,9 @@ pub enum WV {
     CopyStream(u64),
     /// (expectation only) a stream that decodes to these bytes
     Decoded(Vec<u8>),
+    /// a typed value whose serialisation fails (a stream whose typed dictionary part is an integer):
+    /// the write call must return an error and leave nothing behind that makes a later save fail
+    Unwritable,
 }
 #[derive(Clone, Debug, PartialEq)]
 pub enum Target {
@@ -63,6 +66,7 @@ fn wv_json(w: &WV) -> J {
         WV::Page { content } => json!({"page": docgen::hex(content)}),
         WV::CopyStream(id) => json!({"copy_stream": id}),
         WV::Decoded(d) => json!({"decoded": docgen::hex(d)}),
+        WV::Unwritable => json!({"unwritable": true}),
     }
 }
 fn wv_from(j: &J) -> Option<WV> {
@@ -77,6 +81,9 @@ fn wv_from(j: &J) -> Option<WV> {
     }
     if let Some(c) = j.get("copy_stream") {
         return Some(WV::CopyStream(c.as_u64()?));
+    }
+    if j.get("unwritable").is_some() {
+        return Some(WV::Unwritable);
     }
     if let Some(d) = j.get("decoded") {
         return Some(WV::Decoded(docgen::unhex(d.as_str()?)?));
@@ -185,7 +192,7 @@ pub struct Outcome {
 
 fn to_primitive(file: &SimFile, w: &WV) -> Result<Primitive, String> {
     match w {
-        WV::Page { .. } | WV::CopyStream(_) | WV::Decoded(_) => Err("typed value".into()),
+        WV::Page { .. } | WV::CopyStream(_) | WV::Decoded(_) | WV::Unwritable => Err("typed value".into()),
         WV::Val(v) => Ok(val_to_prim(v)),
         WV::Stream { dict, data } => Stream::new(dict_to_prim(dict), data.clone()).to_primitive(&mut NoUpdate).map_err(|e| error_kind(&e)),
         WV::InFile(id) => match file.resolver().resolve(PlainRef { id: *id, gen: 0 }) {
@@ -281,6 +288,7 @@ fn matches(res: &impl Resolve, at: PlainRef, got: &Primitive, w: &WV) -> Result<
             }
             p => Err(format!("wrote a stream, read {}", short(p))),
         },
+        WV::Unwritable => Err("an unwritable value was written".into()),
         WV::InFile(_) | WV::CopyStream(_) => match got {
             Primitive::Stream(_) => Ok(()),
             p => Err(format!("wrote a stream, read {}", short(p))),
@@ -435,6 +443,19 @@ impl<'a> Exec<'a> {
                 None => self.file.create(node).map(|h| (None, h.get_ref().get_inner())),
             };
             return self.record_write(result, w);
+        }
+        if let WV::Unwritable = w {
+            if promise.is_some() || target.is_some() {
+                return Ok(());
+            }
+            self.out.writes += 1;
+            return match self.file.create(Stream::new(Primitive::Integer(1), vec![1u8, 2, 3])) {
+                Err(_) => {
+                    self.out.refused_updates += 1;
+                    Ok(())
+                }
+                Ok(_) => Err(("a value whose serialisation fails was accepted by create".to_string(), String::new())),
+            };
         }
         if let WV::CopyStream(src) = w {
             if promise.is_some() {
@@ -647,7 +668,7 @@ impl<'a> Exec<'a> {
             Op9::Create(w) => self.write(None, w, None),
             Op9::Update(Target::Missing(n), w) => {
                 // still missing? (an earlier accepted update may have defined it)
-                if self.expect.contains_key(n) || matches!(w, WV::InFile(_) | WV::Page { .. } | WV::CopyStream(_)) {
+                if self.expect.contains_key(n) || matches!(w, WV::InFile(_) | WV::Page { .. } | WV::CopyStream(_) | WV::Unwritable) {
                     return Ok(());
                 }
                 let prim = match to_primitive(&self.file, w) {
@@ -682,7 +703,7 @@ impl<'a> Exec<'a> {
                 Ok(())
             }
             Op9::Fulfil(k, w) => {
-                if self.promises.is_empty() || matches!(w, WV::InFile(_) | WV::Page { .. } | WV::CopyStream(_)) {
+                if self.promises.is_empty() || matches!(w, WV::InFile(_) | WV::Page { .. } | WV::CopyStream(_) | WV::Unwritable) {
                     return Ok(());
                 }
                 let idx = k % self.promises.len();
@@ -954,6 +975,9 @@ impl C09 {
                 return WV::InFile(*rng.pick(&streams));
             }
         }
+        if rng.chance(1, 40) {
+            return WV::Unwritable;
+        }
         if rng.chance(1, 10) {
             let streams: Vec<u64> = base.inv.objects.iter().filter(|(_, k)| matches!(k, ObjKind::Stream | ObjKind::Image | ObjKind::Form)).map(|x| x.0).collect();
             if !streams.is_empty() {
@@ -1094,8 +1118,8 @@ impl C09 {
                         break;
                     }
                     let simpler = match &best.ops[k] {
-                        Op9::Create(w) if *w != WV::Val(Val::Int(1)) && !matches!(w, WV::InFile(_) | WV::Page { .. } | WV::CopyStream(_)) => Some(Op9::Create(WV::Val(Val::Int(1)))),
-                        Op9::Update(t, w) if *w != WV::Val(Val::Int(1)) && !matches!(w, WV::InFile(_) | WV::Page { .. } | WV::CopyStream(_)) => Some(Op9::Update(t.clone(), WV::Val(Val::Int(1)))),
+                        Op9::Create(w) if *w != WV::Val(Val::Int(1)) && !matches!(w, WV::InFile(_) | WV::Page { .. } | WV::CopyStream(_) | WV::Unwritable) => Some(Op9::Create(WV::Val(Val::Int(1)))),
+                        Op9::Update(t, w) if *w != WV::Val(Val::Int(1)) && !matches!(w, WV::InFile(_) | WV::Page { .. } | WV::CopyStream(_) | WV::Unwritable) => Some(Op9::Update(t.clone(), WV::Val(Val::Int(1)))),
                         _ => None,
                     };
                     if let Some(s_op) = simpler {
